@@ -180,10 +180,18 @@ _tg, _te = _thr.make(T_CALLS, ['geodepy/geodesy.py'], 'geodesy:vincdir:threads',
                      triple=('grs80', 'intl_long', 'obj'))
 
 
+from gpmc import callforms as _cf
+
+
+from gpmc import interp as _ip
+
+
 SUBCHECKS = [
     Sub('direct', gen, ev, chunk=4, floor=1000, envs=6),
     Sub('mp', gen_mp, ev_mp, chunk=2, floor=100),
     Sub('threads', _tg, _te, chunk=1, floor=3, poison=False, fresh=True, timeout=3600),
+    Sub('callforms', *_cf.make('C04', 'geodesy'), chunk=1, floor=1, guard=True),
+    Sub('interpreter', *_ip.make('C04', 'geodesy'), chunk=1, floor=5, poison=False),
 ]
 
 
